@@ -40,7 +40,19 @@ TotalBelowHalf == (a # b /\ Dist(a, b) # Half) => (Gt(a, b) \/ Gt(b, a))
 OriginFree == Gt(a, b) = Gt(Add(a, d), Add(b, d))
 \* transitivity inside a window smaller than half the space
 TransitiveBelowHalf == (Gt(a, b) /\ Gt(b, d) /\ Dist(a, d) < Half) => Gt(a, d)
-AllLemmas == FormulaIsReference /\ Antisymmetric /\ AddConsistent /\ TotalBelowHalf /\ OriginFree /\ TransitiveBelowHalf
+\* tsn_plus_one / tsn_minus_one are inverse to each other, also at the wrap point
+SuccPredInverse == Add(Add(a, 1), M - 1) = a /\ Add(Add(a, M - 1), 1) = a
+\* adding d moves exactly d ahead
+DistAdd == Dist(Add(a, d), a) = d
+\* moving further ahead inside the half-space window keeps the order (cumulative TSN walks)
+MonotoneWithinHalf == (Gt(a, b) /\ Dist(a, b) + d < Half) => Gt(Add(a, d), b)
+\* sorting by distance from a base d that lies less than half the space behind both operands is
+\* sorting in serial order (the rule the repaired `_sack_misordered` walks rely on)
+SortKeyIsSerialOrder == (Dist(a, d) < Half /\ Dist(b, d) < Half /\ a # b) => (Gt(a, b) <=> Dist(a, d) > Dist(b, d))
+AllLemmas == /\ FormulaIsReference /\ Antisymmetric /\ AddConsistent /\ TotalBelowHalf /\ OriginFree
+             /\ TransitiveBelowHalf /\ SuccPredInverse /\ DistAdd /\ MonotoneWithinHalf /\ SortKeyIsSerialOrder
+\* witness (must be violated): numeric sort keys are NOT the serial order (the defect repaired by e4fb4d8)
+W_NumericSortKey == (Dist(a, d) < Half /\ Dist(b, d) < Half /\ a # b) => (Gt(a, b) <=> a > b)
 \* witness (must be violated): the order is not the numeric order
 W_NumericOrder == Gt(a, b) => a > b
 \* witness (must be violated): without the half-space side condition totality fails
